@@ -22,6 +22,18 @@ fn read_port(emu: &mut Emu, port: u16) -> u8 {
     emu.verif_cpu().regs.get_acc()
 }
 
+/// the same read made by a block input instruction (INI: the port address is BC before B is decremented; the byte goes
+/// to (HL))
+fn read_port_ini(emu: &mut Emu, port: u16) -> u8 {
+    poke_bytes(emu, CODE + 2, &[0xED, 0xA2]);
+    let cpu = emu.verif_cpu();
+    cpu.regs.set_bc(port);
+    cpu.regs.set_hl(0x9000);
+    cpu.regs.set_pc(CODE + 2);
+    step(emu);
+    emu.peek(0x9000)
+}
+
 pub fn run(args: &Args) {
     let mut out = Out::create(&args.str("out", "-"));
     let seed = args.num("seed", 1);
@@ -200,8 +212,10 @@ pub fn run(args: &Args) {
             } else {
                 ports.extend([0x001F, 0xFF1F, 0x0001, 0x5501]);
             }
+            // (a third of the scans read with a block input instruction instead of IN A,(C))
+            let ini = step_i % 3 == 2;
             for p in ports {
-                let v = read_port(&mut emu, p);
+                let v = if ini { read_port_ini(&mut emu, p) } else { read_port(&mut emu, p) };
                 out.ev(json!({"ev":"rd","port":p,"val":v}));
             }
         }
